@@ -51,7 +51,7 @@ Section Rel.
   Qed.
 
   Section Param.
-    Variables (sp : bool) (sd : mdict).
+    Variables (Sp : sops) (sp : bool) (sd : mdict).
     Variables ap1 ap2 : mdict -> expr -> res (expr * mdict).
 
     Lemma rres_ap_list : forall l,
@@ -78,7 +78,7 @@ Section Rel.
     Variable x : expr.
     Hypothesis Hap : forall y, In y (vchildren x) -> forall s1 s2, R s1 s2 -> rres (ap1 s1 y) (ap2 s2 y).
 
-    Lemma bvisit_param : forall s1 s2, R s1 s2 -> rres (bvisit sp sd ap1 s1 x) (bvisit sp sd ap2 s2 x).
+    Lemma bvisit_param : forall s1 s2, R s1 s2 -> rres (bvisit Sp sp sd ap1 s1 x) (bvisit Sp sp sd ap2 s2 x).
     Proof.
       intros s1 s2 HR.
       destruct x as [n|nm|nm i|nm|c d|c d|b e|c a|c a b|c l|nm l|c a b|a l|a d|l|bb|is ie lo ro|tc];
@@ -104,7 +104,7 @@ Section Rel.
                apply rres_ret, HU.
             -- apply rres_bind; [apply Hap; [exact Hin | exact HT]|].
                intros t u1 u2 HU. cbn beta iota. apply rres_pure. intros s'. apply rres_ret, HU.
-        + intros st t1 t2 HT. cbn beta iota. apply rres_ret, HT.
+        + intros st t1 t2 HT. cbn beta iota. apply rres_pure. intros r. apply rres_ret, HT.
       - (* EMul *)
         apply rres_bind.
         + apply rres_fold; [|exact HR]. intros p Hp st t1 t2 HT. cbn beta iota zeta.
@@ -113,7 +113,7 @@ Section Rel.
           * intros f u1 u2 HU. cbn beta iota. apply rres_pure. intros s'. apply rres_ret, HU.
         + intros st t1 t2 HT. cbn beta iota.
           apply rres_bind; [apply Hap; [apply in_or_app; right; left; reflexivity | exact HT]|].
-          intros f u1 u2 HU. cbn beta iota. apply rres_pure. intros st'. apply rres_ret, HU.
+          intros f u1 u2 HU. cbn beta iota. apply rres_pure. intros st'. apply rres_pure. intros r. apply rres_ret, HU.
       - (* EPow *)
         apply rres_bind; [apply Hap; [left; reflexivity | exact HR]|].
         intros b' t1 t2 HT. cbn beta iota.
@@ -188,25 +188,25 @@ Qed.
 
 (* ------------------------------------------------------------------ the uncached visitor *)
 Section Cache.
-  Variables (sp : bool) (sd : mdict).
+  Variables (Sp : sops) (sp : bool) (sd : mdict).
   Notation TT := (fun _ _ : mdict => True).
 
   Lemma apply_S : forall f cache vis x,
-    apply (S f) sp cache sd vis x =
+    apply Sp (S f) sp cache sd vis x =
     if cache then
       match mlookup x vis with
       | Some (_, v) => Ok (v, vis)
-      | None => do '(r, vis') <- bvisit sp sd (apply f sp cache sd) vis x; Ok (r, minsert x r vis')
+      | None => do '(r, vis') <- bvisit Sp sp sd (apply Sp f sp cache sd) vis x; Ok (r, minsert x r vis')
       end
     else match mlookup x sd with
          | Some (_, v) => Ok (v, vis)
-         | None => bvisit sp sd (apply f sp cache sd) vis x
+         | None => bvisit Sp sp sd (apply Sp f sp cache sd) vis x
          end.
   Proof. reflexivity. Qed.
 
   (* (a) + (b): state and fuel do not matter above the measure *)
   Lemma uncached_stable : forall f1 f2 x v1 v2, (wsize x < f1)%nat -> (wsize x < f2)%nat ->
-    rres TT (apply f1 sp false sd v1 x) (apply f2 sp false sd v2 x).
+    rres TT (apply Sp f1 sp false sd v1 x) (apply Sp f2 sp false sd v2 x).
   Proof.
     induction f1 as [|f1 IH]; intros f2 x v1 v2 L1 L2; [lia|]. destruct f2 as [|f2]; [lia|].
     rewrite !apply_S. cbn beta iota.
@@ -217,12 +217,12 @@ Section Cache.
 
   (* the uncached result of a node *)
   Definition uresult (x r : expr) : Prop :=
-    forall f v, (wsize x < f)%nat -> exists s, apply f sp false sd v x = Ok (r, s).
+    forall f v, (wsize x < f)%nat -> exists s, apply Sp f sp false sd v x = Ok (r, s).
 
-  Lemma uresult_of_run : forall f v x r s, (wsize x < f)%nat -> apply f sp false sd v x = Ok (r, s) -> uresult x r.
+  Lemma uresult_of_run : forall f v x r s, (wsize x < f)%nat -> apply Sp f sp false sd v x = Ok (r, s) -> uresult x r.
   Proof.
     intros f v x r s L E f' v' L'. pose proof (uncached_stable f f' x v v' L L') as H. rewrite E in H.
-    destruct (apply f' sp false sd v' x) as [[r' s']| | |]; cbn in H; try contradiction.
+    destruct (apply Sp f' sp false sd v' x) as [[r' s']| | |]; cbn in H; try contradiction.
     destruct H as [<- _]. exists s'. reflexivity.
   Qed.
 
@@ -336,7 +336,7 @@ Section Cache.
   Qed.
 
   Lemma cached_simulates : forall f x v1 v2, (wsize x < f)%nat -> node x -> inv v1 ->
-    rres (fun s1 _ => inv s1) (apply f sp true sd v1 x) (apply f sp false sd v2 x).
+    rres (fun s1 _ => inv s1) (apply Sp f sp true sd v1 x) (apply Sp f sp false sd v2 x).
   Proof.
     induction f as [|f IH]; intros x v1 v2 L N I1; [lia|].
     destruct (mlookup x v1) as [[k v]|] eqn:LK.
@@ -345,7 +345,7 @@ Section Cache.
       destruct (mlookup_equiv x v1 k v LK) as [Hin Heq]. destruct I1 as (G1 & U1 & K1).
       destruct (U1 k v x Hin N Heq (S f) v2 L) as [s E]. rewrite E. cbn. split; [reflexivity | exact (conj G1 (conj U1 K1))].
     - (* miss *)
-      assert (SIM : rres (fun s1 _ => inv s1) (bvisit sp sd (apply f sp true sd) v1 x) (bvisit sp sd (apply f sp false sd) v2 x)).
+      assert (SIM : rres (fun s1 _ => inv s1) (bvisit Sp sp sd (apply Sp f sp true sd) v1 x) (bvisit Sp sp sd (apply Sp f sp false sd) v2 x)).
       { apply bvisit_param; [|exact I1]. intros y Hy s1 s2 Hs. pose proof (vchildren_wsize x y Hy).
         apply IH; [lia | eapply node_child; eassumption | exact Hs]. }
       rewrite (apply_S f true). cbn beta iota. rewrite LK.
@@ -355,8 +355,8 @@ Section Cache.
         assert (k = x) by (apply Hsyn; [right; apply (in_map fst _ _ Hin) | left; exact N | exact Heq]). subst k.
         destruct I1 as (_ & _ & K1). apply (K1 x v Hin). exact LK. }
       rewrite (apply_S f false). cbn beta iota. rewrite LS.
-      destruct (bvisit sp sd (apply f sp true sd) v1 x) as [[r s1]| | |] eqn:B1;
-        destruct (bvisit sp sd (apply f sp false sd) v2 x) as [[r2 s2]| | |] eqn:B2; cbn in SIM |- *; try contradiction; try exact SIM.
+      destruct (bvisit Sp sp sd (apply Sp f sp true sd) v1 x) as [[r s1]| | |] eqn:B1;
+        destruct (bvisit Sp sp sd (apply Sp f sp false sd) v2 x) as [[r2 s2]| | |] eqn:B2; cbn in SIM |- *; try contradiction; try exact SIM.
       destruct SIM as [<- (G2 & U2 & K2)]. split; [reflexivity|].
       assert (U : uresult x r).
       { apply (uresult_of_run (S f) v2 x r s2 L). rewrite apply_S. cbn beta iota. rewrite LS. exact B2. }
